@@ -90,6 +90,12 @@ pub fn explore(
     loop {
         let (ch, cont) = f(&prefix)?;
         stats.executions += 1;
+        if !cont {
+            // A violation was observed on this (real) execution: the caller confirms it by
+            // replay, whether or not the execution followed the planned prefix.
+            stats.max_choice_points = stats.max_choice_points.max(ch.taken.len());
+            return Ok(stats);
+        }
         if ch.diverged {
             return Err(Divergence(format!(
                 "replayed choice out of range: prefix {:?} taken {:?}",
@@ -119,9 +125,6 @@ pub fn explore(
             )));
         }
         stats.max_choice_points = stats.max_choice_points.max(ch.taken.len());
-        if !cont {
-            return Ok(stats);
-        }
         if stats.executions >= max_execs {
             stats.capped = true;
             return Ok(stats);
